@@ -47,15 +47,20 @@ def generate(seed, tier):
   cohort = g.weighted([(1, 2), (n, 2), (max(1, n // 2), 3), (g.randint(1, n), 4)])
   cfg = {'n': n, 'cohort': cohort, 'seed': g.choice([0, 1, g.randint(0, 2**31 - 1)]), 'data_seed': g.randint(0, 10**6),
          'sqlite': g.chance(0.3), 'buffer': g.choice([1, 2, n, n + 5, max(1, n // 2)]),
-         'stream_seed': g.randint(0, 10**6), 'stream_rounds': g.randint(2, 8)}
+         'stream_seed': g.randint(0, 10**6), 'stream_rounds': g.choice([2, 3, 5, 8, 20, 40])}
   o = r.sub('ops')
   ops = []
   rounds_pool = [0, 1, 2, 3, 5, 8]
   for _ in range(o.randint(5, 40)):
-    k = o.weighted([('sample', 10), ('set', 4), ('restart', 3), ('noise', 2)])
+    k = o.weighted([('sample', 10), ('set', 4), ('restart', 3), ('noise', 2), ('run', 1), ('restart_seen', 2)])
     obj = o.randint(0, 2)
     if k == 'sample':
       ops.append(['sample', obj])
+    elif k == 'run':            # a long uninterrupted stretch of consecutive rounds on one object
+      for _ in range(o.randint(8, 40)):
+        ops.append(['sample', obj])
+    elif k == 'restart_seen':   # crash/restart seated at a round that some object has already served
+      ops.append(['restart_seen', obj, o.randint(0, 10**6)])
     elif k in ('set', 'restart'):
       rr = o.choice(rounds_pool) if o.chance(0.85) else o.choice([10**6, 12345, 2**20 + 7])
       ops.append([k, obj, rr])
@@ -187,6 +192,14 @@ def execute(sc):
           probes.inc('huge_round_number')
         o[0].set_round_num(op[2])
         o[1] = op[2]
+      elif kind == 'restart_seen':
+        if not table:
+          continue
+        rr = sorted(table)[op[2] % len(table)]
+        if rr > 0:
+          probes.inc('restart_at_r_gt_0')
+        faults.inc('restart')
+        objs[op[1]] = [cs.UniformGetClientSampler(fd, k, cfg['seed'], start_round_num=rr), rr]
       elif kind == 'restart':
         if op[2] > 0:
           probes.inc('restart_at_r_gt_0')
